@@ -138,6 +138,7 @@ type Exec struct {
 	RecordGlobals       bool // record reads/writes of package-level variables as events (C19)
 	PruneCalls          bool // solver-check every outcome returned to the harness function
 	KeepHarnessOutcomes bool
+	cutLemmas           map[string]bool
 	NoOutcomeMerge      bool
 	MaxUnroll           int
 	MaxStates           int
